@@ -228,20 +228,26 @@ static inline void myth_sleep_stack_destroy(myth_sleep_stack_t * s) {
 static inline myth_sleep_queue_item_t myth_sleep_stack_pop(myth_sleep_stack_t * s) {
   while (1) {
     myth_sleep_queue_item_t x = s->top;
+    MYTH_VERIF_POINT(MYTH_VP_STK_POP_READ, s, x, 0);
     if (x == 0) return x;
     if (__sync_bool_compare_and_swap(&s->top, x, x->next)) {
+      MYTH_VERIF_POINT(MYTH_VP_STK_POP_CAS, s, x, 1);
       return x;
     }
+    MYTH_VERIF_POINT(MYTH_VP_STK_POP_CAS, s, x, 0);
   }
 } 
 
 static inline long myth_sleep_stack_push(myth_sleep_stack_t * s, myth_sleep_queue_item_t x) {
   while (1) {
     myth_sleep_queue_item_t t = s->top;
+    MYTH_VERIF_POINT(MYTH_VP_STK_PUSH_READ, s, t, 0);
     x->next = t;
     if (__sync_bool_compare_and_swap(&s->top, t, x)) {
+      MYTH_VERIF_POINT(MYTH_VP_STK_PUSH_CAS, s, x, 1);
       return 0;
     }
+    MYTH_VERIF_POINT(MYTH_VP_STK_PUSH_CAS, s, x, 0);
   }
 } 
 
